@@ -257,7 +257,9 @@ pub fn call_on_8mib(t: Target, text: &str) -> Outcome {
 /// white space (trimmed by `str::trim`), characters whose lower-casing changes the byte length
 pub const MB: [&str; 14] = ["é", "日本", "😀", "e\u{301}", "٣", "\u{a0}", "\u{2028}", "İ", "ß", "\u{feff}", "“", "\u{fffd}", "\u{3000}", "Ω"];
 /// the probes used by the exhaustive `edits` part (one per UTF-8 length + white space)
-pub const MB_EDIT: [char; 4] = ['é', '日', '😀', '\u{a0}'];
+/// ('İ' is one of the few characters whose lower-case form has another UTF-8 length: offsets found in a case-folded copy
+/// of a text do not fit the text)
+pub const MB_EDIT: [char; 5] = ['é', 'İ', '日', '😀', '\u{a0}'];
 
 const V_GRL: &[&str] = &[
     " ", "\n", "rule", "when", "then", "{", "}", "(", ")", "\"", "==", "&&", "||", "!", ";", "=", ".", ",", "X", "User.Age", "a.b", "1", "0", "42", "3.14", "-1", "true", "false",
@@ -317,6 +319,9 @@ const S_GRL: &[&str] = &[
     "rule \"Arr\" { when X.role in [\"admin\", 'mod', 3] && X.name startsWith \"J\" && X.mail matches \"a.*\" then X.tags = [1, 2.5, true]; X.msg = \"Hi \" + X.name; }",
     ";; MODULE: SENSORS - t\ndefmodule SENSORS {\n export: all\n}\ndefmodule CONTROL {\n import: SENSORS (rules * (templates t))\n export: none\n}\nrule \"Temp\" {\n when t.value > 28\n then println(\"Hot\");\n}\n",
     "rule One { when a.b == 1 then c.d = 2; }\nrule \"Two\" { when a.b == 2 then c.d = 3; }\n",
+    // module markers in other placements: directly in front of the rule, followed by non-ASCII text, two sections
+    ";; MODULE:rule \"R\" { when X.a == 1 then X.b = 1; }",
+    ";; MODULE:制御 - t\nrule \"R\" { when X.a == 1 then X.b = 1; }\n;; MODULE: B\nrule S { when X.a == 2 then X.b = 2; }",
 ];
 const S_BEXPR: &[&str] = &[
     "User.IsVIP == true && Order.Amount > 1000",
@@ -1121,7 +1126,7 @@ pub fn run_eval(s: &mut Src, ctx: &mut Ctx) -> Verdict {
 
 // ------------------------------------------------------------------ exhaustive single edits of every seed
 
-/// choices: target, seed, operation, position. `exh` = 1: truncation + deletion + insertion of 'é';
+/// choices: target, seed, operation, position. `exh` = 1: truncation + deletion + insertion of 'é' and of 'İ';
 /// `exh` = 2 adds the other probes and replacement.
 fn gen_edit(s: &mut Src, exh: u32) -> (Target, usize, String) {
     let t = ALL_TARGETS[s.below(ALL_TARGETS.len())];
@@ -1129,7 +1134,7 @@ fn gen_edit(s: &mut Src, exh: u32) -> (Target, usize, String) {
     let seed = sd[s.below(sd.len())];
     // 0 truncate, 1 delete a character, 2 replace a number by an extreme one, 3 drop a bracket group or its content,
     // 4.. multi-byte insertion (then replacement)
-    let nops = if exh >= 2 { 4 + 2 * MB_EDIT.len() } else { 5 };
+    let nops = if exh >= 2 { 4 + 2 * MB_EDIT.len() } else { 6 };
     let op = s.below(nops);
     let chars: Vec<char> = seed.chars().collect();
     let text = match op {
@@ -1266,7 +1271,7 @@ enum ChildOutcome {
     Hang,
     /// only with an explicit address-space cap: the child aborted in `handle_alloc_error` under that cap
     AllocFailure(u64),
-    Harness(#[allow(dead_code)] String),
+    Harness(String),
 }
 
 fn run_in_child(part: &str, choices: &[u32], exh: u32, no_excl: bool) -> ChildOutcome {
@@ -1448,7 +1453,7 @@ fn build_modgraph(shape: usize, levels: usize, tail_kind: usize, spec: usize) ->
     let name = |i: usize| format!("M{}", i);
     let mut t = String::new();
     let mut made = 0usize;
-    let mut block = |t: &mut String, n: &str, imports: &[String], export: bool| -> bool {
+    let block = |t: &mut String, n: &str, imports: &[String], export: bool| -> bool {
         let mut b = format!("defmodule {} {{\n", n);
         for i in imports {
             b.push_str(&import(i));
@@ -1540,7 +1545,13 @@ pub fn run_modgraph(s: &mut Src, ctx: &mut Ctx) -> Verdict {
     match run_in_child_capped("text", &choices, 0, true, Some(3)) {
         ChildOutcome::Pass => Verdict::Pass,
         ChildOutcome::Fail(sig, detail) if sig.starts_with("panic@") => Verdict::fail(sig, detail),
-        ChildOutcome::Fail(..) | ChildOutcome::Harness(_) => Verdict::Discard("child process could not be judged"),
+        ChildOutcome::Fail(..) => Verdict::Discard("child process could not be judged"),
+        ChildOutcome::Harness(why) => {
+            // killed from outside (the kernel's out-of-memory killer while other children grow, an operator): neither a
+            // pass nor a violation - the run must not end green on it
+            mark_inconclusive(&format!("a module-graph case ({}, {} levels) ran in a child process that was killed from outside or could not be started: {}", shape_name, made, why));
+            Verdict::Discard("child process killed from outside")
+        }
         ChildOutcome::Signal(sn, overflow) => {
             if overflow {
                 Verdict::fail(format!("stack-overflow@{}", t.name()), format!("{} overflowed an 8 MiB stack on an import graph ({}, {} levels; child died by signal {})", t.name(), shape_name, made, sn))
